@@ -31,9 +31,10 @@ type Shape struct {
 	TabLim  Limits `json:"tablim"`
 	TabType string `json:"tabtype"` // "funcref" (default) | "externref"
 	// G: global g: "own" (mutable i32 = 1, exported), "imp" (from env.g with declared type/mutability)
-	G     string `json:"g"`
-	GType string `json:"gtype"` // i32 | i64
-	GMut  bool   `json:"gmut"`
+	G      string `json:"g"`
+	GType  string `json:"gtype"` // i32 | i64
+	GMut   bool   `json:"gmut"`
+	GAlias bool   `json:"galias"` // the mutable i32 global g is imported a second time under another index (export galias)
 	// H: immutable i32 h: "own" (= 7, exported) or "imp" (env.h); K captures h: global k = global.get h
 	H    string `json:"h"`
 	HVal int    `json:"hval"` // value of an own h (default 7)
@@ -143,6 +144,10 @@ func Build(s Shape) []byte {
 			m.Export("g", wasm.ExternTypeGlobal, gIdx)
 		}
 	}
+	var g2Idx uint32
+	if s.G == "imp" && s.GAlias {
+		g2Idx = m.ImportGlobal(from, "g", gType, s.GMut)
+	}
 	if s.H == "imp" {
 		hIdx = m.ImportGlobal(from, "h", wb.I32, false)
 		if s.Reexport {
@@ -195,6 +200,10 @@ func Build(s Shape) []byte {
 	}
 	if hasGRead {
 		add("gget", nil, i32, wb.GlobalGet(gIdx))
+	}
+	if s.G == "imp" && s.GAlias && hasG {
+		// galias(v): read g through the second import, write it through the first, read through the second again, in ONE function
+		add("galias", i32, i32, wb.Cat(wb.GlobalGet(g2Idx), wb.I32Const(1000), wasm.OpcodeI32Mul, wb.LocalGet(0), wb.GlobalSet(gIdx), wb.GlobalGet(g2Idx), wasm.OpcodeI32Add))
 	}
 	if s.K && !(s.KMut && gType != wb.I32) {
 		add("kget", nil, i32, wb.GlobalGet(kIdx))
